@@ -271,6 +271,17 @@ def run_select(ctx):
     for op, build, need in inf_entry:
         for m, v in perm_cases:
             add(op, build({m: v}), None, None, perm=(need, {m: v}))
+    # nothing named in the template and the key DECLARES an algorithm: that one is used or the call is refused - a key that
+    # declares a key-wrapping / content-encryption / other family's algorithm is never used for a signature (and vice versa)
+    for kn, decl in (("oct-32", "A256KW"), ("oct-32", "A256GCM"), ("oct-64", "A128CBC-HS256"), ("oct-32", "dir"), ("oct-64", "A256GCMKW"), ("oct-32", "ES256"),
+                     ("EC-P256", "ECDH-ES"), ("EC-P256", "HS256"), ("RSA-2048", "RSA-OAEP"), ("RSA-2048", "ES256")):
+        for sigt in (None, {}, {"protected": {"kid": "k"}}, {"header": {"kid": "k"}}):
+            a_ = {"jws": {"payload": "cGF5"}, "jwk": dict(pool[kn], alg=decl)}
+            if sigt is not None:
+                a_["sig"] = sigt
+            add("jws.sig", a_, "<a signature algorithm>", decl)
+    for kn, decl in (("oct-16", "HS256"), ("oct-32", "HS256"), ("EC-P256", "ES256"), ("RSA-2048", "RS256")):      # (a key declaring a content-encryption name is a direct key: legitimate)
+        add("jwe.enc_jwk", {"jwe": {}, "jwk": dict(pool[kn], alg=decl), "cek": {}, "rand": "33" * 100}, "<a key-management algorithm>", decl)
     # both members at once, with the key also declaring the matching algorithm: key_ops decides
     for md in ({"use": "enc", "key_ops": ["verify"], "alg": "HS256"}, {"use": "sig", "key_ops": ["sign"], "alg": "HS256"}, {"use": "sig", "key_ops": [], "alg": "HS256"}):
         add("jws.ver", {"jws": toks["HS256"], "jwk": dict(key, **md)}, None, None, perm=("verify", {k_: v_ for k_, v_ in md.items() if k_ != "alg"}))
